@@ -191,6 +191,22 @@ Section Mon.
            end) members)
     end.
 
+  (** C11: "violations ... are retried": an active pass of an ObjectSet that lists an object twice, or whose first
+      (in-process) phase contains an object violating preflight, ends with a requeue (or an error, which the
+      workqueue retries with backoff). *)
+  Definition m11r : bool :=
+    match target with
+    | None => true
+    | Some m =>
+        negb (is_activeb m) || Z.eqb (os_revision m) 0 ||
+        negb (Nat.ltb 0 (dup_count [] (map (spec_key m) (all_objects m))) ||
+              match os_phases m with
+              | ph :: _ => negb (ph_class ph) &&
+                           existsb (fun p => negb (is_nil (preflight_obj FObjectSet (as_owner m) false p))) (ph_objects ph)
+              | [] => false end) ||
+        match sc_res c with SDone true | SError => true | _ => false end
+    end.
+
   (** C01 at the controller level: a collision error is reported as Available=False/CollisionDetected for
       the current generation, with a requeue. *)
   Definition m01 : bool :=
@@ -278,5 +294,5 @@ Definition judge06 (c : scase) : bool * bool := (agree c, m06 c && m06d c).
 Definition m09d (c : scase) : bool := C15Corr.m_pause (as_dobs c).
 Definition m09d_all (c : scase) : bool := C15Corr.m_pause_all (as_dobs c).
 Definition judge09 (c : scase) : bool * bool * bool := (agree c, m09 c && m09d c, m09d_all c).
-Definition judge11 (c : scase) : bool * bool := (agree c, m11 c).
+Definition judge11 (c : scase) : bool * bool := (agree c, m11 c && m11r c).
 Definition judge_all (c : scase) : list bool := [agree c; m01 c; m03 c && m03d c; m04 c && m04d c; m06 c && m06d c; m09 c; m11 c].
